@@ -254,5 +254,16 @@ func isErrorReturnBlock(b *ssa.BasicBlock) bool {
 		return false
 	}
 	isNil, known := errIsNilReturn(r)
-	return known && !isNil
+	if !known || isNil {
+		return false
+	}
+	// not the nil constant: an error return only if the value is known to be a non-nil error (a fresh or
+	// wrapped error, a sentinel, an error tested non-nil on the way); `return ok, store.Write(…)` or a
+	// result variable that may be nil is an ordinary return
+	for _, v := range resultValues(r, len(r.Results)-1) {
+		if !knownNonNil(v, b, 0) {
+			return false
+		}
+	}
+	return true
 }
